@@ -33,6 +33,8 @@ func checkC18(c *Ctx, r *Report) {
 		"SIG.Verify:slice-order UnpackDomainName()#1+10 <= UnpackDomainName()#1+0 in buf": "buf[sigstart:sigend] needs 'UnpackDomainName returns an offset beyond the one it was given', which holds only on the paths without a compression pointer taken first (a path-sensitive invariant over ptr and off) and is not derived",
 		"SIG.Verify:slice-order +12 <= offset+0 in buf":                                   "buf[12:bodyend] needs 'offset never decreases below the header size' through the same monotonicity of UnpackDomainName",
 	})
+	r.rule("C18.R1.ecdsa-sig-length", 1, "SIG.Verify compares the ECDSA signature length with twice the curve size before splitting it into r and s")
+	ecdsaSigLength(c, r, "C18.R1.ecdsa-sig-length", "SIG.Verify", "a zero octet put in front of r and of s (66 instead of 64 octets) gives different SIG RDATA that still verifies: an octet of the signed message was altered without Verify noticing")
 }
 
 func c18R1(c *Ctx, r *Report) {
